@@ -116,7 +116,7 @@ theorem calc_scalar_eq_vector (vt : VTable α) (g y : Vec α) (σ : α) (hg : g.
     have hr0 : vget (List.replicate y.length σ) 0 = σ := by
       rw [vget_lt _ _ (by simp; omega)]; simp
     by_cases h1 : y.length = 1
-    · simp [h1, h0, hr0]
+    · simp [h1, h0]
     · have : (y.length == 1) = false := by simpa using h1
       simp [this, h0, hr]
   have hz : zetaV g y [σ] = zetaV g y (List.replicate y.length σ) := by
